@@ -214,8 +214,22 @@ theorem issueUat_reauth {rw : Bool} {sid : Nat} {se : Option Nat} {t : AuthType}
       injection h with h; injection h with h1 h2; subst h1
       exact ⟨scope, rfl, hr⟩
 
-theorem Inv.stepAuth {w : World} (hw : Inv w) (t : AuthType) (p a : Bool) (pol : Policy) :
-    Inv (stepAuth w t p a pol).1 := by
+theorem mem_authSessions {sessions : List (Nat × Session)} {persist : Bool}
+    {rec : Option (Nat × Session)} {q : Nat × Session}
+    (hq : q ∈ authSessions sessions persist rec) : q ∈ sessions ∨ rec = some q := by
+  cases rec with
+  | none => exact Or.inl hq
+  | some r =>
+    cases persist with
+    | false => exact Or.inl hq
+    | true =>
+      simp only [authSessions, if_true, List.mem_append, List.mem_singleton] at hq
+      rcases hq with hq | hq
+      · exact Or.inl hq
+      · exact Or.inr (by rw [hq])
+
+theorem Inv.stepAuth {w : World} (hw : Inv w) (t : AuthType) (p a ps : Bool) (pol : Policy) :
+    Inv (stepAuth w t p a ps pol).1 := by
   unfold Privilege.stepAuth
   cases hi : issueUat (.initialAuth p) t w.now pol w.nextSid a with
   | error e => exact hw
@@ -234,11 +248,11 @@ theorem Inv.stepAuth {w : World} (hw : Inv w) (t : AuthType) (p a : Bool) (pol :
       · exact Nat.lt_succ_of_lt (hw.sidTok u hu')
       · subst hu'; show (wire uat).sessionId < w.nextSid + 1; rw [wire_sessionId, hsid]; omega
     · intro q hq
-      rcases hrec with hrec | hrec <;> subst hrec <;> simp only [List.mem_append, List.mem_singleton] at hq
+      rcases mem_authSessions hq with hq | hq
       · exact Nat.lt_succ_of_lt (hw.sidSess q hq)
-      · rcases hq with hq | hq
-        · exact Nat.lt_succ_of_lt (hw.sidSess q hq)
-        · subst hq; exact Nat.lt_succ_self _
+      · rcases hrec with hrec | hrec <;> rw [hrec] at hq
+        · cases hq
+        · injection hq with hq; subst hq; exact Nat.lt_succ_self _
     · intro e he
       simp only [List.mem_append, List.mem_singleton] at he
       rcases he with he | he
@@ -273,13 +287,12 @@ theorem Inv.stepAuth {w : World} (hw : Inv w) (t : AuthType) (p a : Bool) (pol :
         refine ⟨_, List.mem_append_right _ (List.mem_singleton.mpr rfl), rfl, ?_, rfl⟩
         show w.nextSid = (wire uat).sessionId; rw [wire_sessionId, hsid]
     · intro q hq
-      rcases hrec with hrec | hrec <;> subst hrec <;> simp only [List.mem_append, List.mem_singleton] at hq
+      rcases mem_authSessions hq with hq | hq
       · obtain ⟨e, he, h1, h2, h3, h4⟩ := hw.origSess q hq
         exact ⟨e, List.mem_append_left _ he, h1, h2, h3, h4⟩
-      · rcases hq with hq | hq
-        · obtain ⟨e, he, h1, h2, h3, h4⟩ := hw.origSess q hq
-          exact ⟨e, List.mem_append_left _ he, h1, h2, h3, h4⟩
-        · subst hq
+      · rcases hrec with hrec | hrec <;> rw [hrec] at hq
+        · cases hq
+        · injection hq with hq; subst hq
           refine ⟨_, List.mem_append_right _ (List.mem_singleton.mpr rfl), rfl, rfl, rfl, Or.inr ⟨x, ?_, hwx⟩⟩
           simp [recordOf, hx]
     · intro e he hr
@@ -416,7 +429,7 @@ theorem Inv.stepReauth {w : World} (hw : Inv w) (tok : Nat) (req : ReauthRequest
 
 theorem Inv.step {w : World} (hw : Inv w) (op : Op) : Inv (step w op).1 := by
   cases op with
-  | auth t p a pol => exact hw.stepAuth t p a pol
+  | auth t p a ps pol => exact hw.stepAuth t p a ps pol
   | reauth tok req t pol => exact hw.stepReauth tok req t pol
   | advance dt =>
     exact { hw with timeLog := fun e he => Nat.le_trans (hw.timeLog e he) (Nat.le_add_right _ _) }
